@@ -41,7 +41,17 @@ for mf in sorted(glob.glob(os.path.join(V, "seeded", "*", "meta.json"))):
         m["id"], cell(m.get("summary", ""))[:150], cell(m.get("needs", ""))[:150],
         m.get("first_run_of_the_check_as_it_was_then"), chk.get("verdict"),
         cell((("`%s` " % clause) if clause else "") + note)[:330]))
-gen = {"FIXES": "\n".join(t1), "OPEN": "\n".join(t2), "SEEDS": "\n".join(t3)}
+t4 = ["| check | level | quick: cases (distinct non-trivial) | enumerated completely (quick) | main monitor counters (quick) |", "|---|---|---|---|---|"]
+for ef in sorted(glob.glob(os.path.join(V, "evidence", "C*.json"))):
+    e = json.load(open(ef))
+    c = e["coverage"]
+    cnt = c.get("monitor_event_counts", {})
+    top = sorted(((v, k) for k, v in cnt.items() if not k.startswith("contract_evals")), reverse=True)[:5]
+    t4.append("| %s | %s | %d (%d) | %s | %s |" % (
+        e["property_id"], e["level"], c["evaluations"], c["distinct_nontrivial"],
+        cell("; ".join(c.get("enumerated_completely", [])) or "-")[:200],
+        cell(", ".join("%s=%d" % (k, v) for v, k in top))))
+gen = {"FIXES": "\n".join(t1), "OPEN": "\n".join(t2), "SEEDS": "\n".join(t3), "CHECKS": "\n".join(t4)}
 p = os.path.join(V, "DESIGN.md")
 s = open(p).read()
 for k, v in gen.items():
